@@ -420,12 +420,19 @@ func (g *orderGate) done(id uint64) {
 // NewCluster creates n nodes with ids ids[i], each with ND wallet "Wallet 1" and distributed wallet
 // "Wallet 3", full permissions for client1, and every node a peer of every other.
 func NewCluster(ctx context.Context, ids []uint64, genTimeout time.Duration) (*Cluster, error) {
+	return NewClusterPerms(ctx, ids, genTimeout, nil)
+}
+
+// NewClusterPerms: a cluster whose instances all run with the given permissions (nil = client1 may do everything).
+func NewClusterPerms(ctx context.Context, ids []uint64, genTimeout time.Duration, perms map[string][]*checker.Permissions) (*Cluster, error) {
 	c := &Cluster{Nodes: map[uint64]*Node{}}
 	peersMap := map[uint64]string{}
 	for _, id := range ids {
 		peersMap[id] = fmt.Sprintf("%s:%d", nodeName(id), 10000+id%50000)
 	}
-	perms := map[string][]*checker.Permissions{"client1": {{Path: "Wallet 1", Operations: []string{"All"}}, {Path: "Wallet 3", Operations: []string{"All"}}}}
+	if perms == nil {
+		perms = map[string][]*checker.Permissions{"client1": {{Path: "Wallet 1", Operations: []string{"All"}}, {Path: "Wallet 3", Operations: []string{"All"}}}}
+	}
 	for _, id := range ids {
 		n, err := NewNode(ctx, NodeOpts{ID: id, NDWallets: []string{"Wallet 1"}, DistWallets: []string{"Wallet 3"}, Perms: perms,
 			PeersMap: peersMap, Sender: &clusterSender{c: c, from: id}, GenTimeout: genTimeout})
